@@ -1,5 +1,6 @@
 (* C05 — no residue: theorems.  Part 1 is function-level (no reachability needed). *)
-From AV Require Import Base Machine ScopeFrames.
+From Coq Require Import ZArith Lia.
+From AV Require Import Base Machine ScopeFrames DeliverInv TreeInv DeliverAlive PotentialInv TreeStep.
 
 (* ---------------- scope_ptr_restored ---------------- *)
 Lemma scopes_upd_scope s c g x :
@@ -124,3 +125,266 @@ Proof.
       apply in_app_or in Hin. destruct Hin as [Hin|Hin]; [now apply G2|].
       rewrite Forall_forall in Fl. specialize (Fl h Hin). destruct h; cbn in Fl; try contradiction; reflexivity.
 Qed.
+
+(* ================= Part 2: the potential in every reachable state ================= *)
+(* explicit uncancel() stays within the requests that came from outside the task's own scopes *)
+Definition unc_ok (s : st) (o : op) : bool :=
+  match o with
+  | AUncancel t => Nat.ltb (pending_of s t) (k_ncancel (tasks s t))
+  | _ => true
+  end.
+
+Fixpoint ops_ok2 (s : st) (ops : list op) : bool :=
+  match ops with
+  | [] => true
+  | o :: r => op_ok s o && unc_ok s o && ops_ok2 (fst (step s o)) r
+  end.
+
+Definition reach_ok2 (s : st) : Prop := exists ops, ops_ok2 init ops = true /\ s = final step init ops.
+
+Lemma ops_ok2_ops_ok ops : forall s, ops_ok2 s ops = true -> ops_ok s ops = true.
+Proof.
+  induction ops as [|o r IH]; intros s H; cbn in *; [reflexivity|].
+  apply andb_true_iff in H. destruct H as [H1 H2]. apply andb_true_iff in H1. destruct H1 as [H0 _].
+  rewrite H0. cbn. now apply IH.
+Qed.
+
+Lemma reach_ok2_reach_ok s : reach_ok2 s -> reach_ok s.
+Proof. intros [ops [H E]]. exists ops. split; [now apply ops_ok2_ops_ok|exact E]. Qed.
+
+(* the two outside influences, as ops *)
+Lemma uncancel_op_state s t : idle s t = true ->
+  inert (task_uncancel (begin_act s t) t) (fst (step s (AUncancel t))) /\
+  inert s (begin_act s t).
+Proof.
+  intros Hi. split; [|apply inert_begin_act].
+  unfold step. cbn [actor]. rewrite Hi. cbn [negb]. unfold puppet_op. apply inert_ret_to_puppet.
+Qed.
+
+Lemma PInv_step s o : SInv s -> PInv s -> op_ok s o = true -> unc_ok s o = true -> PInv (fst (step s o)).
+Proof.
+  intros I P Hok Hu.
+  assert (Q : quiet o -> PInv (fst (step s o))).
+  { intros Hq. destruct (step_g s o I Hok Hq) as [[_ Ps] _]. now apply Ps. }
+  destruct o; try (apply Q; exact Logic.I).
+  - (* AUncancel *)
+    destruct (idle s t) eqn:Hi.
+    + destruct (uncancel_op_state s t Hi) as [I2 I1].
+      apply (PInv_inert _ _ (uncancel_PInv (begin_act s t) t (PInv_inert _ _ P I1)
+               ltac:(rewrite (pending_of_inert _ _ t I1), (in_task _ _ I1 t); cbn [unc_ok] in Hu; now apply Nat.ltb_lt in Hu)) I2).
+    + unfold step. cbn [actor]. rewrite Hi. exact P.
+  - (* ANativeCancel *)
+    cbn [step actor fst]. now apply native_cancel_PInv.
+Qed.
+
+Lemma PInv_init : PInv init.
+Proof. constructor; [intros c _; reflexivity|intros t; cbn; lia]. Qed.
+
+Lemma pinv_final ops : forall s, SInv s -> PInv s -> ops_ok2 s ops = true ->
+  SInv (final step s ops) /\ PInv (final step s ops).
+Proof.
+  induction ops as [|o r IH]; intros s I P H; cbn in *; [now split|].
+  apply andb_true_iff in H. destruct H as [H1 H2]. apply andb_true_iff in H1. destruct H1 as [H0 H1].
+  apply IH; [now apply step_inv|now apply PInv_step|exact H2].
+Qed.
+
+(* I5, first half: the counter never falls below the debts of the task's own scopes, and a scope without a host
+   owes nothing *)
+Theorem potential_nonneg s : reach_ok2 s ->
+  (forall t, pending_of s t <= k_ncancel (tasks s t)) /\
+  (forall c, s_host (scopes s c) = None -> s_pending (scopes s c) = 0).
+Proof.
+  intros [ops [H ->]]. destruct (pinv_final ops init sinv_init PInv_init H) as [_ P].
+  split; [apply P|apply P].
+Qed.
+
+(* I5: what one op does to the potential phi t = ncancel t - (debts of the scopes hosted by t) *)
+Theorem own_cancels_compensated s o t :
+  reach_ok2 s -> op_ok s o = true -> unc_ok s o = true -> alloc_t s t ->
+  let s' := fst (step s o) in
+  match o with
+  | ANativeCancel t0 =>
+      phi s' t = (if Nat.eqb t t0 then (if k_done (tasks s t0) then phi s t else phi s t + 1) else phi s t)%Z
+  | AUncancel t0 =>
+      phi s' t = (if Nat.eqb t t0 && idle s t0 then phi s t - 1 else phi s t)%Z
+  | _ => (phi s t <= phi s' t)%Z /\ (k_group (tasks s t) = None -> phi s' t = phi s t)
+  end.
+Proof.
+  intros [ops [H ->]] Hok Hu A. set (s := final step init ops) in *.
+  destruct (pinv_final ops init sinv_init PInv_init H) as [I P]. fold s in I, P. cbv zeta.
+  assert (Q : quiet o -> (phi s t <= phi (fst (step s o)) t)%Z /\
+                         (k_group (tasks s t) = None -> phi (fst (step s o)) t = phi s t)).
+  { intros Hq. destruct (step_g s o I Hok Hq) as [[_ Ps] _]. destruct (Ps P) as [_ F]. now apply F. }
+  destruct o; try (apply Q; exact Logic.I).
+  - (* AUncancel *)
+    destruct (idle s t0) eqn:Hi.
+    + destruct (uncancel_op_state s t0 Hi) as [I2 I1].
+      rewrite (phi_inert _ _ t I2), uncancel_phi, (phi_inert _ _ t I1), (in_task _ _ I1 t0).
+      cbn [unc_ok] in Hu. apply Nat.ltb_lt in Hu.
+      destruct (Nat.eqb t t0); cbn [andb]; [|reflexivity].
+      destruct (Nat.eqb_spec (k_ncancel (tasks s t0)) 0); [lia|reflexivity].
+    + unfold step. cbn [actor]. rewrite Hi, andb_false_r. reflexivity.
+  - (* ANativeCancel *)
+    cbn [step actor fst]. destruct (k_done (tasks s t0)) eqn:Hd.
+    + rewrite task_cancel_done_noop; [|congruence]. destruct (Nat.eqb t t0); reflexivity.
+    + rewrite (native_cancel_phi s t0 Hd t). destruct (Nat.eqb t t0); reflexivity.
+Qed.
+
+(* allocation and group membership of existing tasks never change *)
+Lemma step_ids s o : SInv s -> op_ok s o = true -> ids s (fst (step s o)).
+Proof.
+  intros I Hok. destruct o; try (exact (proj2 (step_g s _ I Hok Logic.I))).
+  - unfold step. cbn [actor]. destruct (idle s t) eqn:Hi; cbn [negb]; [|intros x A; now split].
+    unfold puppet_op. apply ids_treq.
+    eapply treq_trans; [apply treq_begin_act|]. eapply treq_trans; [apply treq_task_uncancel|apply treq_ret_to_puppet].
+  - cbn [step actor fst]. apply ids_treq, treq_task_cancel.
+Qed.
+
+(* ---------------- cancelling() of a root task along a whole run ---------------- *)
+Definition ext_delta (s : st) (o : op) (t : tid) : Z :=
+  match o with
+  | ANativeCancel t0 => if Nat.eqb t t0 then (if k_done (tasks s t0) then 0 else 1) else 0
+  | AUncancel t0 => if Nat.eqb t t0 && idle s t0 then -1 else 0
+  | _ => 0
+  end%Z.
+
+Fixpoint ext_count (s : st) (ops : list op) (t : tid) : Z :=
+  match ops with
+  | [] => 0%Z
+  | o :: r => (ext_delta s o t + ext_count (fst (step s o)) r t)%Z
+  end.
+
+Lemma reach_ok2_step s o : reach_ok2 s -> op_ok s o = true -> unc_ok s o = true -> reach_ok2 (fst (step s o)).
+Proof.
+  intros [ops [H ->]] Ho Hu. exists (ops ++ [o]). split.
+  - clear - H Ho Hu. revert H Ho Hu. generalize init. induction ops as [|a r IH]; intros s0 H Ho Hu; cbn in *.
+    + now rewrite Ho, Hu.
+    + apply andb_true_iff in H. destruct H as [H1 H2]. rewrite H1. cbn. now apply IH.
+  - now rewrite final_app.
+Qed.
+
+Lemma reach_ok2_sinv s : reach_ok2 s -> SInv s.
+Proof. intros H. apply reach_sinv. now apply reach_ok2_reach_ok. Qed.
+
+(* for a task that is not a group child, only native cancel() and explicit uncancel() move the potential:
+   whatever scopes it entered, cancelled and left in between *)
+Theorem cancelling_restored ops : forall s t,
+  reach_ok2 s -> ops_ok2 s ops = true -> alloc_t s t -> k_group (tasks s t) = None ->
+  phi (final step s ops) t = (phi s t + ext_count s ops t)%Z.
+Proof.
+  induction ops as [|o r IH]; intros s t R H A G; cbn [final fold_left ext_count]; [lia|].
+  cbn [ops_ok2] in H. apply andb_true_iff in H. destruct H as [H1 H2]. apply andb_true_iff in H1. destruct H1 as [Ho Hu].
+  pose proof (own_cancels_compensated s o t R Ho Hu A) as St. cbv zeta in St.
+  destruct (step_ids s o (reach_ok2_sinv s R) Ho t A) as [A' G'].
+  change (fold_left (fun s0 o0 => fst (step s0 o0)) r (fst (step s o))) with (final step (fst (step s o)) r).
+  rewrite (IH (fst (step s o)) t (reach_ok2_step s o R Ho Hu) H2 A' (eq_trans G' G)).
+  assert (E : phi (fst (step s o)) t = (phi s t + ext_delta s o t)%Z).
+  { destruct o; cbn [ext_delta]; try (destruct St as [_ St]; rewrite (St G); lia).
+    - rewrite St. destruct (Nat.eqb t t0 && idle s t0); lia.
+    - rewrite St. destruct (Nat.eqb t t0); [destruct (k_done (tasks s t0))|]; lia. }
+  lia.
+Qed.
+
+(* in particular: whenever the task owes nothing (it hosts no scope with outstanding deliveries), its native
+   counter is its earlier value plus native cancels minus explicit uncancels *)
+Corollary cancelling_restored_counter ops s t :
+  reach_ok2 s -> ops_ok2 s ops = true -> alloc_t s t -> k_group (tasks s t) = None ->
+  pending_of s t = 0 -> pending_of (final step s ops) t = 0 ->
+  Z.of_nat (k_ncancel (tasks (final step s ops) t)) = (Z.of_nat (k_ncancel (tasks s t)) + ext_count s ops t)%Z.
+Proof.
+  intros R H A G P0 P1. pose proof (cancelling_restored ops s t R H A G) as E. unfold phi in E.
+  rewrite P0, P1 in E. lia.
+Qed.
+
+(* ---------------- what __exit__ does with the scope's debt (any state) ---------------- *)
+Theorem exit_debt_settled s c t exc :
+  s_active (scopes s c) = true -> s_host (scopes s c) = Some t -> k_cur (tasks s t) = Some c ->
+  s_parent (scopes s c) <> Some c ->
+  let s5 := restart (exit_struct s c t) (s_parent (scopes s c)) in
+  let n := s_pending (scopes s5 c) in
+  let sf := fst (scope_exit s c t exc) in
+  s_pending (scopes sf c) = 0 /\ s_host (scopes sf c) = None /\
+  ((* pending_handover: the parent is hosted by the same task and takes the debt over *)
+   (exists p, s_parent (scopes s c) = Some p /\ s_host (scopes s5 p) = Some t /\
+              s_pending (scopes sf p) = s_pending (scopes s5 p) + n /\
+              k_ncancel (tasks sf t) = k_ncancel (tasks s5 t)) \/
+   (* the debt is paid back with uncancel() *)
+   (k_ncancel (tasks sf t) = k_ncancel (tasks s5 t) - n /\
+    forall x, x <> c -> s_pending (scopes sf x) = s_pending (scopes s5 x))) /\
+  (* no_foreign_handover: a scope hosted by another task never receives the debt *)
+  (forall x, x <> c -> s_host (scopes s5 x) <> Some t -> s_pending (scopes sf x) = s_pending (scopes s5 x)) /\
+  (forall t', t' <> t -> k_ncancel (tasks sf t') = k_ncancel (tasks s5 t')).
+Proof.
+  intros Ha Hh Hc Hpc. cbv zeta.
+  destruct (scope_exit_acct s c t exc (conj Ha (conj Hh Hc)) Hpc) as [_ [hand [Hhand [Fh [Fp Fn]]]]].
+  refine (conj _ (conj _ (conj _ (conj _ _)))).
+  - rewrite Fp, Nat.eqb_refl. reflexivity.
+  - rewrite Fh, Nat.eqb_refl. reflexivity.
+  - destruct hand.
+    + left. destruct (Hhand eq_refl) as [p [Ep Hp]]. exists p. split; [exact Ep|]. split; [exact Hp|].
+      assert (p <> c) by (intros ->; now apply Hpc). split.
+      * rewrite Fp. destruct (Nat.eqb_spec p c); [contradiction|]. rewrite Ep. cbn. now rewrite Nat.eqb_refl.
+      * rewrite Fn, andb_false_r. reflexivity.
+    + right. split.
+      * rewrite Fn, Nat.eqb_refl. reflexivity.
+      * intros x Hx. rewrite Fp. destruct (Nat.eqb_spec x c); [contradiction|reflexivity].
+  - intros x Hx Hn. rewrite Fp. destruct (Nat.eqb_spec x c); [contradiction|].
+    destruct (hand && opt_eqb (s_parent (scopes s c)) x) eqn:E; [|reflexivity].
+    apply andb_true_iff in E. destruct E as [E1 E2]. apply opt_eqb_true in E2.
+    destruct (Hhand E1) as [p [Ep Hp]]. rewrite Ep in E2. inversion E2; subst p. contradiction.
+  - intros t' Hne. rewrite Fn. destruct (Nat.eqb_spec t' t); [contradiction|reflexivity].
+Qed.
+
+(* ---------------- a delivery callback left over after the scope was exited ---------------- *)
+Lemma inactive_empty s c : Tree s -> s_active (scopes s c) = false ->
+  s_tasks (scopes s c) = [] /\ s_children (scopes s c) = [].
+Proof.
+  intros T Ic. split.
+  - apply no_members. intros x Hx. apply (tr_task _ T) in Hx. apply (tr_cur_act _ T) in Hx. congruence.
+  - apply no_members. intros x Hx. apply (tr_child _ T) in Hx. destruct Hx as [Ha Hp].
+    pose proof (tr_par_act _ T x c Ha Hp). congruence.
+Qed.
+
+Theorem leftover_deliver_runs_once s c :
+  reach_ok s -> s_active (scopes s c) = false -> In (HDeliver c) (ready s) ->
+  let s' := fst (step s (ARun (HDeliver c))) in
+  s_chandle (scopes s' c) = false /\ ready s' = remove_first (HDeliver c) (ready s) /\
+  tasks s' = tasks s /\ timers s' = timers s /\
+  (forall x, x <> c -> scopes s' x = scopes s x).
+Proof.
+  intros R Ic Hin s'. destruct (inactive_empty s c (reach_tree s R) Ic) as [Et Ec].
+  unfold s'. cbn [step actor]. unfold run_handle.
+  assert (Ex : existsb (handle_eqb (HDeliver c)) (ready s) = true) by now apply existsb_handle.
+  rewrite Ex. cbn [negb fst].
+  set (s1 := set_running (set_ready s (remove_first (HDeliver c) (ready s))) None).
+  assert (E : deliver_top s1 c = upd_scope s1 c (sc_chandle false)).
+  { unfold deliver_top. rewrite deliver_unfold.
+    change (s_tasks (scopes s1 c)) with (s_tasks (scopes s c)). rewrite Et. cbn [fold_left].
+    change (s_children (scopes s1 c)) with (s_children (scopes s c)). rewrite Ec. cbn [fold_left].
+    now rewrite Nat.eqb_refl. }
+  rewrite E. refine (conj _ (conj _ (conj _ (conj _ _)))); try reflexivity.
+  - cbn. unfold upd. now rewrite Nat.eqb_refl.
+  - intros x Hx. cbn. unfold upd. destruct (Nat.eqb_spec x c); [contradiction|reflexivity].
+Qed.
+
+(* ---------------- non-vacuity ---------------- *)
+(* a root task enters scope 1, is cancelled in it while blocked, the delivery hits it twice, it is resumed,
+   leaves the scope absorbing the cancellation: cancelling() is back at 0 *)
+Definition ex5_ops : list op :=
+  [ANewRoot; ANewScope 1 None false; AEnter 1 1; ASleep 1 None; AExtCancel 1; ARun (HDeliver 1);
+   ARun (HWake 1 4); AExit 1 1 false].
+
+Example ex5_ok : ops_ok2 init ex5_ops = true.
+Proof. vm_compute. reflexivity. Qed.
+
+Example ex5_counter :
+  let s := final step init ex5_ops in
+  k_ncancel (tasks s 1) = 0 /\ s_pending (scopes s 1) = 0 /\ s_host (scopes s 1) = None /\
+  k_cur (tasks s 1) = None /\ ext_count init ex5_ops 1 = 0%Z.
+Proof. vm_compute. repeat split. Qed.
+
+(* ... and in the middle of it the task did owe something *)
+Example ex5_middle :
+  let s := final step init (firstn 6 ex5_ops) in
+  k_ncancel (tasks s 1) = 1 /\ pending_of s 1 = 1 /\ phi s 1 = 0%Z.
+Proof. vm_compute. repeat split. Qed.
